@@ -149,9 +149,13 @@ pub fn run(args: &Args, rep: &mut Report) {
                     h.await.map_err(|e| format!("task panicked: {e}"))?;
                 }
                 mgr.flush().await.map_err(|e| format!("final flush: {e}"))?;
-                // through the live manager
+                // through the live manager (the in-memory chunk index is capped: judged only while the history holds less
+                // than half the configured cap)
                 let mut lost: Vec<String> = Vec::new();
-                for h in added_cas.lock().unwrap().iter() {
+                let index_cap: usize = std::env::var("HF_XET_CHUNK_INDEX_TABLE_MAX_SIZE").ok().and_then(|s| s.parse().ok()).unwrap_or(64 * 1024 * 1024);
+                let n_chunks: usize = truth_arc.values().map(|v| v.len()).sum();
+                let judge_index = n_chunks * 2 <= index_cap;
+                for h in added_cas.lock().unwrap().iter().filter(|_| judge_index) {
                     let chunks = &truth_arc[h];
                     if chunks.is_empty() {
                         continue;
